@@ -24,6 +24,7 @@ def units(tier):
         k = 1 if n <= 2 else (8 if n == 3 else 64 if n == 4 else 256)
         us += [("CLASSREP", n, i, k, n <= 3 or tier == "thorough") for i in range(k)]
     us += [("FULL", 1, 0, 1), ("WHOLE",)] + [("FULL", 2, i, 16) for i in range(16)]
+    us += [("AWKWARD", n, i, 4 if n < 3 else 16, True) for n in (1, 2, 3) for i in range(4 if n < 3 else 16)]
     return us
 
 
@@ -171,13 +172,19 @@ def run_unit(unit):
     if unit[0] == "WHOLE":
         return run_whole(res)
     kind, n, shard, k = unit[:4]
-    if kind == "CLASSREP":
+    if kind in ("CLASSREP", "AWKWARD"):
         all_variants = unit[4]
-        for i, ast in enumerate(E.asts(n, E.CLASS_BIN, E.CLASS_UN)):
-            if i % k != shard or not E.well_formed(ast):
-                continue
-            for full, tight in (VARIANTS if all_variants else VARIANTS[:1]):
-                check(res, ast, full, tight)
+        rotations = [None]
+        if kind == "AWKWARD":
+            # every rotation of the awkward operand list, so that each awkward operand reaches each leaf position
+            aw = E.OPERANDS_AWKWARD
+            rotations = [aw[r:] + aw[:r] for r in range(len(aw))]
+        for ops_ in rotations:
+            for i, ast in enumerate(list(E.asts(n, E.CLASS_BIN, E.CLASS_UN, ops_))):
+                if i % k != shard or not E.well_formed(ast):
+                    continue
+                for full, tight in (VARIANTS if all_variants else VARIANTS[:1]):
+                    check(res, ast, full, tight)
         R.add_sub(res, "trees with %d operators, one representative per precedence class" % n, res["evals"])
         if shard == 0:
             R.add_sample(res, {"operators": n, "example_source": E.render(ast, False, False)}, 1)
@@ -200,6 +207,10 @@ WHOLE = [
     ("class", "text", '(tostring([area],"%.2f"))', '(tostring([area],"%.2f"))'), ("layer", "filter", "/re/", "/re/"),
     ("style", "geomtransform", "(buffer([shape], 5))", "(buffer([shape],5))"), ("class", "expression", '("[a]" = "x")', '( "[a]" = "x" )'),
     ("class", "expression", "([a] IN 'x,y')", "( [a] IN 'x,y' )"), ("class", "expression", "(`2020-01-01` > [d])", "( `2020-01-01` > [d] )"),
+    ("class", "expression", "{007,012}", "{007,012}"), ("class", "expression", "{1.50,2.00}", "{1.50,2.00}"), ("class", "expression", "{+5,-3}", "{+5,-3}"),
+    ("class", "expression", "{1e3,x}", "{1e3,x}"), ("class", "expression", "{true,FALSE,Null}", "{true,FALSE,Null}"), ("class", "expression", "{a,'b c',\"d\"}", "{a,'b c',\"d\"}"),
+    ("class", "expression", "([a] IN {1.50,2})", "( [a] IN {1.50,2} )"), ("class", "expression", "/^0+1\\.50$/i", "/^0+1\\.50$/i"),
+    ("class", "text", "(tostring([a_B],'%05.1f x'))", "(tostring([a_B],'%05.1f x'))"), ("class", "text", "[ATTR_Name]", "[ATTR_Name]"),
 ]
 
 
